@@ -432,20 +432,42 @@ func ForceSpace(form string) [][2]int {
 	return nil
 }
 
-// SshCorpus returns the case list for (seed, n): first each-choice coverage
-// of every boundary pool of every form, then seeded random cases, n in total.
-func SshCorpus(seed int64, stream string, n int, forms []string) []SshCase {
-	var out []SshCase
+// SshCorpusT is the case list for (seed, n): first each-choice coverage of
+// every boundary pool of every form, then seeded random cases, n in total.
+// Only the each-choice prefix is kept in memory; a random case is a function
+// of (seed, stream, index) alone, so every process sees the same list without
+// any of them having to build all of it.
+type SshCorpusT struct {
+	seed   int64
+	stream string
+	n      int
+	forms  []string
+	prefix []SshCase
+}
+
+func NewSshCorpus(seed int64, stream string, n int, forms []string) *SshCorpusT {
+	c := &SshCorpusT{seed: seed, stream: stream, n: n, forms: forms}
 	r := NewRng(seed, stream)
 	for _, form := range forms {
 		for _, fs := range ForceSpace(form) {
 			for i := 0; i < fs[1]; i++ {
-				out = append(out, GenSsh(r, form, fs[0], i))
+				c.prefix = append(c.prefix, GenSsh(r, form, fs[0], i))
 			}
 		}
 	}
-	for len(out) < n {
-		out = append(out, GenSsh(r, forms[len(out)%len(forms)], -1, -1))
+	return c
+}
+
+func (c *SshCorpusT) Len() int {
+	if len(c.prefix) > c.n {
+		return len(c.prefix)
 	}
-	return out
+	return c.n
+}
+
+func (c *SshCorpusT) At(i int) SshCase {
+	if i < len(c.prefix) {
+		return c.prefix[i]
+	}
+	return GenSsh(NewRng(c.seed, fmt.Sprintf("%s/%d", c.stream, i)), c.forms[i%len(c.forms)], -1, -1)
 }
